@@ -176,9 +176,12 @@ impl Widget {
             if let Some(refs) = expr::build_object_ref_list(p, diagnostics) {
                 refs.into_iter()
                     .map(|id| {
+                        // the reference may be the generated name of an anonymous object
+                        // (e.g. implicit "this" of menuAction())
                         let o = ctx
                             .object_tree
                             .get_by_id(&id)
+                            .or_else(|| ctx.object_tree.flat_iter().find(|o| o.name() == id))
                             .expect("object ref must be valid");
                         if is_action_separator(ctx, o, diagnostics) {
                             ACTION_SEPARATOR_NAME.to_owned()
